@@ -1084,10 +1084,10 @@ fn caret<'s>(input: &mut &'s str) -> PResult<Option<BoundSet>, SemverParseError<
     .parse_next(input)
 }
 
-// hyphen ::= ' - ' partial /* loose */ | partial ' - ' partial
+// hyphen ::= partial ' - ' partial
 fn hyphen<'s>(input: &mut &'s str) -> PResult<Option<BoundSet>, SemverParseError<&'s str>> {
     fn parser<'s>(input: &mut &'s str) -> PResult<Option<BoundSet>, SemverParseError<&'s str>> {
-        let lower = opt(partial_version).parse_next(input)?;
+        let lower = partial_version(input)?;
         let _ = space1(input)?;
         let _ = literal("-").parse_next(input)?;
         let _ = space1(input)?;
@@ -1125,18 +1125,10 @@ fn hyphen<'s>(input: &mut &'s str) -> PResult<Option<BoundSet>, SemverParseError
             }),
             partial => Predicate::Including(partial.into()),
         };
-        let bounds = if let Some(lower) = lower {
-            BoundSet::new(
-                Bound::Lower(Predicate::Including(lower.into())),
-                Bound::Upper(upper),
-            )
-        } else if upper == Predicate::Unbounded {
-            // ` - x`: like every other bare wildcard
-            BoundSet::at_least(Predicate::Including((0, 0, 0).into()))
-        } else {
-            BoundSet::at_most(upper)
-        };
-        Ok(bounds)
+        Ok(BoundSet::new(
+            Bound::Lower(Predicate::Including(lower.into())),
+            Bound::Upper(upper),
+        ))
     }
 
     parser
